@@ -11,5 +11,5 @@ for d in ../work/mc_*; do
   [ -z "$mod" ] && continue
   echo "== $n ($mod)"
   rm -rf /verif/work/cov_meta
-  timeout ${COV_TIMEOUT:-300} java -Xss64m -Xmx8g -XX:+UseParallelGC -cp $JAR tlc2.TLC -workers 8 -coverage 1 -metadir /verif/work/cov_meta -noGenerateSpecTE -config $cfg $mod.tla 2>&1 | grep -E "^<[A-Za-z_0-9]+ line .* of module $mod>: [0-9]+:[0-9]+" | sed -E 's/ line [0-9]+, col [0-9]+ to line [0-9]+, col [0-9]+ of module [A-Za-z_0-9]+//' | sort -u
+  timeout ${COV_TIMEOUT:-300} java -Xss64m -Xmx8g -XX:+UseParallelGC -cp $JAR tlc2.TLC -workers 8 -coverage 1 -metadir /verif/work/cov_meta -noGenerateSpecTE -config $cfg $mod.tla 2>&1 | grep -E "^<[^ ]+ line .* of module $mod>: [0-9]+:[0-9]+" | sed -E 's/ line [0-9]+, col [0-9]+ to line [0-9]+, col [0-9]+ of module [A-Za-z_0-9]+//' | sort -u
 done
